@@ -20,6 +20,10 @@ ASSUMPTIONS = ["simulated cluster vlib/simkafka (Kafka idempotence rules, retria
 
 def evaluate(case, obs):
     out = Outcome()
+    if getattr(obs, "stop_raised", None):
+        # an exception escaping producer.stop() (the sender task died of a non-Kafka error): accepted records are left
+        # behind; reported under this property's own clause names
+        out.fail("unexpected_exception", "stop_raised:" + obs.stop_raised[0], {"error": obs.stop_raised[1]})
     if obs.start_error is not None:
         out.label("start_failed")
         return out
